@@ -44,6 +44,7 @@ type Result struct {
 
 	cur      string
 	curIdx   int
+	caseObs  []string
 	hashes   map[uint64]struct{}
 	hashFile *os.File
 	out      *os.File
@@ -76,6 +77,14 @@ func (r *Result) Distinct(key string) {
 		binary.LittleEndian.PutUint64(b[:], v)
 		r.hashFile.Write(b[:])
 	}
+}
+
+// Obs records an observation of the current case for the conformance comparison between
+// the instrumented and the plain build.
+func (r *Result) Obs(o Obs) {
+	h := fnv.New64a()
+	h.Write([]byte(o.Key()))
+	r.caseObs = append(r.caseObs, fmt.Sprintf("%s:%x", o.Class, h.Sum64()))
 }
 
 func (r *Result) Outcome(class string) { r.Outcomes[class]++ }
@@ -125,6 +134,7 @@ func main() {
 	budget := flag.Duration("budget", 0, "wall budget for this worker (0: none)")
 	count := flag.Bool("count", false, "print the number of cases and exit")
 	verbose := flag.Bool("v", false, "print each case result to stderr")
+	emitObs := flag.Bool("emitobs", false, "emit an observation digest per case")
 	flag.Parse()
 
 	var c *Check
@@ -190,7 +200,11 @@ func main() {
 			fmt.Fprintf(out, "S %d\n", g)
 			r.cur, r.curIdx = s.Name, g
 			before := r.NFails
+			r.caseObs = r.caseObs[:0]
 			s.Run(*tier, i, r)
+			if *emitObs {
+				fmt.Fprintf(out, "O %d %s\n", g, strings.Join(r.caseObs, ","))
+			}
 			r.Evals++
 			r.PerScenario[s.Name]++
 			if *verbose {
